@@ -2,9 +2,12 @@
    Stage reached: executable models of the writer (parameterised by the HashSet order) and of the reader with the
    per-connection cache, tied to the code by three correspondence flows (writer bytes reproduced by the model for the
    order found in them; reader compared on spec-sender histories; spec reader as oracle).  Theorems: limits and
-   structure of the writer for all inputs; reader/cache behaviour on histories is checked by evaluation on witnesses
-   and by the correspondence run (partial). *)
-From EDP Require Import Base.Bytes Term.Term Gen.Tags Gen.DecoderArms Codec.Encode Codec.Decode Codec.DistHeader Order.Cmp.
+   structure of the writer for all inputs; the reader reads every header of the writer back as the writer's atom list
+   and every message as the terms that were written (any count 1..255, even or odd, short or long atoms, any terms
+   the plain round trip covers); reader/cache behaviour on histories of a foreign sender is checked by evaluation on
+   witnesses and by the correspondence run (partial). *)
+From EDP Require Import Base.Bytes Term.Term Gen.Tags Gen.DecoderArms Codec.Encode Codec.Decode Codec.Norm Codec.DistHeader
+  Codec.RoundTripC Codec.DistHeaderFacts Order.Cmp.
 
 (* beyond the header's limit of 255 references encoding reports an error, whatever the terms *)
 Theorem C14_too_many_atoms : forall order ts, 255 < len order -> encode_multi order ts = HTooManyAtoms (len order).
@@ -77,5 +80,47 @@ Example C14_history_reuse_overwrite :
   let '(o3, _) := decode_with_atom_cache (cfg_with_cache cfg0 c2 []) long_of_coded m3 in
   o1 = HDOk (TAtom [111; 107]) None /\ o2 = HDOk (TTuple [TAtom [120]; TAtom [111; 107]]) None /\ o3 = HDOk (TAtom [122]) None.
 Proof. vm_compute. repeat split. Qed.
+
+(* every term the encoder accepts, written with any atom map, is read back through the header's reference list as the
+   same term (up to the representation changes of the plain round trip, C01): cached atoms by position, others in full *)
+Theorem C14_terms_read_back_with_references : forall cfg order kc ki t,
+  d_arms cfg = owned_arms -> d_refs cfg = order -> len order <= 256 -> d_kcmp cfg = kc -> d_kinsert cfg = ki ->
+  wf t = true -> rt_ok kc ki t ->
+  exists b, enc_c order t = EOk b /\ (0 < length b)%nat /\
+    forall f rest, (length b < f)%nat -> parse cfg f (b ++ rest) = POk (norm t) rest.
+Proof. intros cfg order kc ki t Ha Hr Hl Hk Hi. exact (roundtrip_c cfg Ha order Hr Hl kc ki Hk Hi t). Qed.
+
+(* the reader takes the writer's header for exactly the writer's atoms: references in header order, cache slots
+   0..n-1 of segment 0 filled, the LongAtoms bit found where the writer put it for even and for odd counts *)
+Theorem C14_header_read_back : forall cfg order body,
+  order <> [] -> len order <= 255 -> Forall (fun a => utf8_valid a = true) order ->
+  existsb (fun a => 65535 <? len a) order = false ->
+  decode_with_atom_cache cfg long_of_coded (tag_version :: tag_dist_header :: header_bytes order ++ body) =
+    after_hdr cfg (length (header_bytes order ++ body) + 3 + d_extra_fuel cfg) (new_cache order (d_cache cfg)) order body.
+Proof. exact header_read_back. Qed.
+
+(* the library's own decoder reads a message of the library's own encoder back identically: control alone, and
+   control with payload; whatever the connection's cache held before *)
+Theorem C14_message_read_back : forall cfg kc ki order ctl pl,
+  d_arms cfg = owned_arms -> d_kcmp cfg = kc -> d_kinsert cfg = ki ->
+  order <> [] -> len order <= 255 -> Forall (fun a => utf8_valid a = true) order ->
+  existsb (fun a => 65535 <? len a) order = false ->
+  wf ctl = true -> rt_ok kc ki ctl -> wf pl = true -> rt_ok kc ki pl ->
+  (exists bs, encode_multi order [ctl] = HOk bs /\
+     decode_with_atom_cache cfg long_of_coded bs = (HDOk (norm ctl) None, new_cache order (d_cache cfg))) /\
+  (exists bs, encode_multi order [ctl; pl] = HOk bs /\
+     decode_with_atom_cache cfg long_of_coded bs = (HDOk (norm ctl) (Some (norm pl)), new_cache order (d_cache cfg))).
+Proof.
+  intros cfg kc ki order ctl pl Ha Hk Hi Hne Hl Hu Hb Hw Hok Hwp Hokp. split.
+  - exact (message_read_back_1 cfg Ha kc ki Hk Hi order Hne Hl Hu Hb ctl Hw Hok).
+  - exact (message_read_back_2 cfg Ha kc ki Hk Hi order Hne Hl Hu Hb ctl pl Hw Hok Hwp Hokp).
+Qed.
+
+(* the premises are met: 255 atoms of which one is long (odd count, LongAtoms), a message over them *)
+Example C14_read_back_premises :
+  let order := repeat 76 300 :: map (fun i => [97; 48 + N.of_nat i mod 64; 48 + N.of_nat i / 64]) (seq 0 254) in
+  order <> [] /\ len order = 255 /\ forallb utf8_valid order = true /\ existsb (fun a => 65535 <? len a) order = false /\
+  wf (TTuple [TInt 2; TAtom (repeat 76 300); TAtom [97; 55; 48]]) = true.
+Proof. cbv zeta. split; [discriminate|]. vm_compute. repeat split. Qed.
 
 Check C14_too_many_atoms.
